@@ -239,6 +239,16 @@ def check(ctx):
     ctx.ob("C10-R6", size.fq, "Size of a non-number, non-character operand is len(operand)", ok, node=size.node, construct="size is len")
 
 
+# functions whose mechanical mutants are swept in the thorough tier (coverage evidence, see sa/mutate.py)
+MUTATION_SCOPE = ['dyads:eval_dyad_join',
+                  'dyads:eval_dyad_drop',
+                  'dyads:eval_dyad_find',
+                  'dyads:eval_dyad_at_index',
+                  'adverbs:eval_adverb_each',
+                  'monads:eval_monad_size',
+                  'parser:kg_read',
+                  'parser:list_to_dict']
+
 SEEDS = [
     Seed("literal-not-copied", "fault", "parser", "copy_lambda = KGLambda(lambda x: copy.deepcopy(x))", "copy_lambda = KGLambda(lambda x: x)", rule="C10-R1"),
     Seed("left-join-not-in-situ", "fault", "dyads", "        b[a[0]] = a[1]\n        return b", "        return {**b, a[0]: a[1]}", rule="C10-R2"),
